@@ -292,3 +292,31 @@ RANK_IDS = ["N", "M", "K", "J"]
 
 def rank_ids_for(d):
     return RANK_IDS[4 - d:]
+
+
+def _subtree_value_names(shape_sk, names_, pos=0):
+    """-> (list of leaf-value names of this subtree, next_pos, list of per-non-root-fiber (has_elements, value names))"""
+    if isinstance(shape_sk, int):
+        vals = names_[pos + shape_sk:pos + 2 * shape_sk]
+        return list(vals), pos + 2 * shape_sk, []
+    n = len(shape_sk)
+    pos += n
+    allv, subs = [], []
+    for s_ in shape_sk:
+        v, pos, sub = _subtree_value_names(s_, names_, pos)
+        allv += v
+        subs += sub
+        nonzero_len = (s_ > 0) if isinstance(s_, int) else (len(s_) > 0)
+        if nonzero_len:
+            subs.append(v)
+    return allv, pos, subs
+
+
+def alldefault_sub_expr(shape_sk, names_):
+    """Python expression (over the parameter names) that is true iff some non-root fiber of the tree stores elements but
+    holds only default leaves (an 'empty' payload that is not zero-length)."""
+    _, _, subs = _subtree_value_names(shape_sk, names_)
+    terms = []
+    for v in subs:
+        terms.append("(" + " and ".join("%s == 0" % x for x in v) + ")" if v else "True")
+    return " or ".join(terms) if terms else "False"
